@@ -256,7 +256,7 @@ contract(f"{OM}.get_timestep_str", dict(load_method=Const(EnumVal("TimestepType"
 contract(f"{B_}:SingleUTube.calc_effective_borehole_resistance", dict(self=ObjOf(f"{B_}:SingleUTube")), returns=Real, notes="abstract: pygfunction (A-DET)",
          name=f"{B_}:SingleUTube.calc_effective_borehole_resistance#abstract").applies = lambda env: "g_rb" not in env["self"].fields
 contract("ghedesigner.gfunction:GFunction.g_function_interpolation", dict(self=ObjOf("ghedesigner.gfunction:GFunction"), b_over_h=Real),
-         returns=TupleOf(ListOf(Real), Real, Real, Real), notes="abstract here; C11", name="ghedesigner.gfunction:GFunction.g_function_interpolation#abstract").applies = lambda env: True
+         returns=TupleOf(ListOf(Real), Real, Real, Real), notes="abstract here; C11", name="ghedesigner.gfunction:GFunction.g_function_interpolation#abstract").applies = lambda env: "log_time" not in env["self"].fields
 
 SummaryRow = FixedList([OpaqueOf("str"), Real, Real, Real])
 
